@@ -10,8 +10,6 @@ from core.loader import ClassInfo, FuncInfo, ModuleInfo, own_nodes
 
 from .c02_sym import (
     _MISSING_KEY,
-    MUTATORS,
-    STR_METHODS,
     ANode,
     App,
     BoundBuiltin,
